@@ -246,8 +246,7 @@ prop('C03', 'Renaming preserves which binding every name refers to', 'other', la
                  'module-level binding of the same name (class-body lookup goes class -> globals). (e) reservation_scope: inductive per-iteration '
                  'contract of the namespace-chain walk (every namespace between a reference and the binding is in the scope, whatever its class); '
                  'reserve_name and available_name against the same scope. The proof is relative to the hand-written scoping table (trusted); its '
-                 'conformance with CPython symtable is only sampled by the bounded sweep. Level "other": two open known findings found by sub-agents (KF-24 a bare '
-                 '`global eval` declaration hides the reflective builtin; KF-25 first parameter of an old-style static method).')
+                 'conformance with CPython symtable is only sampled by the bounded sweep. Level "other": one open known finding found by a sub-agent (KF-25 first parameter of an old-style static method).')
 prop('C04', 'Externally visible names are never changed', 'proof', lambda tier: renamer_tasks(tier) + [sweep('interface', tier, 'C04')],
      ['C04/'], replay='props.replay_rename:replay_rename', trusted=REN_TRUST,
      explanation='arg_rename_in_place is true exactly for self/cls-like first parameters of plain or @classmethod methods, star parameters and positional-only '
@@ -261,12 +260,11 @@ prop('C06', 'Hoisted literals are bound once, before use, to an identical value'
                  'module namespaces only (nearest_function_namespace), on the common prefix of all uses (common_path step); HoistedBinding.rename assigns the '
                  'first occurrence\'s own node once through util.insert, whose generator is proved to place the statement after exactly the docstring/'
                  '__future__ prefix (loop invariant); folded constants keep parent and namespace.')
-prop('C09', 'Dynamic name access freezes every name in the module', 'other', lambda tier: renamer_tasks(tier) + [sweep('freeze', tier, 'C09')],
+prop('C09', 'Dynamic name access freezes every name in the module', 'proof', lambda tier: renamer_tasks(tier) + [sweep('freeze', tier, 'C09')],
      ['C09/'], replay='props.replay_rename:replay_rename', trusted=REN_TRUST,
      explanation='Detection: resolve_names.get_binding taints the module for exec/eval/locals/globals/vars resolved as builtins, visit_alias for star imports. '
                  'Freeze: on every path of minify() with module.tainted, allow_rename_locals/allow_rename_globals receive False, rename_literals and '
-                 'remove_no_arg_exception_call are not called; pinned bindings are never renamed (C04). Level "other": open known finding KF-24 (a bare `global eval` '
-                 'declaration makes later uses of the builtin resolve to a module binding, so the module is not tainted).')
+                 'remove_no_arg_exception_call are not called; pinned bindings are never renamed (C04). A `global` declaration of a reflective builtin taints as well (KF-24, repaired in 8cd404d).')
 prop('C10', 'Names the user asks to preserve are preserved', 'proof', lambda tier: renamer_tasks(tier) + [sweep('preserve,frame', tier, 'C10'), Task('cli.do_minify', 'contracts.cli:task_do_minify')],
      ['C10/', 'C13/do_minify/preserve'], replay='props.replay_rename:replay_rename', trusted=REN_TRUST,
      explanation='minify normalises str/None/list arguments and passes every name on (plus module.preserved); allow_rename_locals pins every listed binding of '
